@@ -256,13 +256,49 @@ class C14(PropertyCheck):
     id = "C14"
     lean_modules = ["QipVerif.Props.C14"]
     drivers = ["drv_grid"]
-    theorems = []
+    theorems = [
+        "QipVerif.C14.merged_strict",
+        "QipVerif.C14.merged_contains",
+        "QipVerif.C14.fill_eq_code",
+        "QipVerif.C14.fill_eq_step",
+        "QipVerif.C14.leak_counterexample",
+        "QipVerif.C14.piecewise_constant",
+        "QipVerif.C14.fullCoeffs_eq",
+        "QipVerif.C14.reload_fixed_point",
+        "QipVerif.C14.save_read_labels",
+        "QipVerif.C14.save_read_shape",
+        "QipVerif.C14.save_read_shape_counterexample",
+    ]
     technique = ("Lean 4 proof (induction over the merged grid with the slot invariant, exact rationals) + model/implementation "
                  "correspondence; the solver part is numerical agreement (partial)")
-    level_text = ""
-    level_note = ""
-    trusted_base = []
-    assumptions = []
+    level_text = ("Lean 4 theorems over exact rationals, for every tolerance tol >= 0, any number of channels and any grids: the merged "
+                  "grid of get_full_tlist is strictly increasing with gaps > tol and consists of channel points (unconditionally); for "
+                  "channels with strictly increasing grids starting at 0 whose distinct points are more than tol apart it contains every "
+                  "channel point, and the coefficient that _fill_coeff / get_full_coeffs return at every merged point T_k is the channel's "
+                  "step function at T_k (slot value, 0 from the channel's last point on) whenever the channel has one coefficient per slot "
+                  "or a full-length array ending in 0 (fill_eq_step, induction with the invariant 'old_ind is the slot containing T_k'); the "
+                  "step functions are constant on every merged slot (piecewise_constant), so the slice list of run_analytically is H(t) "
+                  "on each slot; a reloaded channel resamples to itself and labels / array shapes survive save_coeff/read_coeff under the "
+                  "stated conditions.  The full statement is refuted for full-length coefficients with a non-zero last entry "
+                  "(leak_counterexample) and for a single pulse saved without time column (save_read_shape_counterexample).  "
+                  "PARTIAL: the agreement of expm products, run_state (sesolve/mesolve) and the text round trip with the time-ordered "
+                  "exponential is numerical; it is checked on every run by the correspondence (1-3 subsystems of dimension 2-3, 1-4 "
+                  "channels, independent non-uniform grids ending at different times, ket and density matrix) against an independent "
+                  "ordered product of scipy.linalg.expm over the model's merged grid, not proved.  Cubic-spline coefficients are not modelled.")
+    level_note = ("partial: proof for the resampling / merged-grid / label logic; the solver clause (Qobj.expm, sesolve/mesolve, "
+                  "np.savetxt '%1.16f' precision, cubic splines) is trusted runtime numerics compared to 1e-9 (analytic) / 2e-6 (solver) "
+                  "on sampled processors.  The analytic fact 'time-ordered exponential of a piecewise-constant H = ordered product of "
+                  "slice exponentials' is assumed.  Trusted: Lean kernel (propext, Classical.choice, Quot.sound), the harness py/props/c14.py.")
+    trusted_base = [
+        "Lean 4.33 kernel; axioms propext, Classical.choice, Quot.sound",
+        "np.unique/np.sort/np.hstack/np.diff as modelled by Grid.sortU/keepFrom (validated by the correspondence)",
+        "float comparisons against tol=1e-10 agree with the rational 1/10^10 away from the threshold (cases within a factor 1+-2^-20 are skipped)",
+        "Qobj.expm, scipy.linalg.expm, qutip.sesolve/mesolve, np.savetxt/np.loadtxt (runtime numerics, compared not proved)",
+        "time-ordered exponential of a piecewise-constant Hamiltonian = ordered product of slice exponentials",
+        "py/props/c14.py (harness, independent step-function / expm reference)",
+    ]
+    assumptions = ["no noise configured; spline_kind = step_func for the proved part",
+                   "distinct grid points of all channels differ by more than tol (SepAll) for the containment / resampling theorems"]
     rule = ("exact stream: case = (1-4 channels with independent strictly increasing dyadic grids starting at 0 and ending at different "
             "times, coefficients of length n-1 or n, absent / constant pulses) for get_full_tlist, _fill_coeff, get_full_coeffs and the "
             "slices; tolerance stream: points 2^-40 or 2^-30 away from points of other channels; numeric stream: processors with 1-3 "
